@@ -5,6 +5,7 @@ import (
 	"fmt"
 	"math/big"
 	"strings"
+	"sync"
 	"testing"
 
 	"pgregory.net/rapid"
@@ -79,6 +80,31 @@ func (c candCase) expect(accept bool) candCase {
 }
 
 func (c candCase) reenc() candCase { c.Reenc = true; return c }
+
+// refVerdict memoises the reference verdict (a pure function of curve, public
+// key, e, r, s - all of them in the key) across cases: the native fuzz targets
+// offer the same pair in thousands of encodings, and the affine math/big
+// arithmetic of the reference is what a case costs.
+func refVerdict(key string, compute func() bool) bool {
+	verdictMu.Lock()
+	w, ok := verdictMemo[key]
+	verdictMu.Unlock()
+	if ok {
+		return w
+	}
+	w = compute()
+	verdictMu.Lock()
+	if len(verdictMemo) < 8192 {
+		verdictMemo[key] = w
+	}
+	verdictMu.Unlock()
+	return w
+}
+
+var (
+	verdictMu   sync.Mutex
+	verdictMemo = map[string]bool{}
+)
 
 func checkCand(c candCase, rec *h.Rec) error {
 	rec.Label(c.Kind)
@@ -156,9 +182,10 @@ func checkCand(c candCase, rec *h.Rec) error {
 		}
 		var w bool
 		if g != nil {
-			w = g.verifyRS(pub, g.eOf(v.e), r, s)
+			e := g.eOf(v.e)
+			w = refVerdict(g.name+"|"+pub.X.Text(16)+"|"+pub.Y.Text(16)+"|"+e.Text(16)+"|"+k, func() bool { return g.verifyRS(pub, e, r, s) })
 		} else {
-			w = ref.SM2VerifyRS(pub, eInt, r, s)
+			w = refVerdict("|"+pub.X.Text(16)+"|"+pub.Y.Text(16)+"|"+string(eInt)+"|"+k, func() bool { return ref.SM2VerifyRS(pub, eInt, r, s) })
 		}
 		memo[k] = w
 		return w
